@@ -88,42 +88,53 @@ Definition init_state (d : list (string * content)) : state :=
 (* ---------------------------------------------------------------------------------------- *)
 Inductive call := CStart (f : string) | CStop (f : string) | CRestart (f : string).
 
-Record entry := { e_next : Z; e_kind : skind; e_file : string }.
+(* e_next = None: the library's zero time (no activation within the horizon) *)
+Record entry := { e_next : option Z; e_kind : skind; e_file : string }.
 
 Definition entries_of (t : Z) (f : string) (e : sched3) : list entry :=
-  map (fun sp => {| e_next := next_time sp t; e_kind := KStart; e_file := f |}) (starts e) ++
-  map (fun sp => {| e_next := next_time sp t; e_kind := KStop; e_file := f |}) (stops e) ++
-  map (fun sp => {| e_next := next_time sp t; e_kind := KRestart; e_file := f |}) (restarts e).
+  map (fun sp => {| e_next := next sp t; e_kind := KStart; e_file := f |}) (starts e) ++
+  map (fun sp => {| e_next := next sp t; e_kind := KStop; e_file := f |}) (stops e) ++
+  map (fun sp => {| e_next := next sp t; e_kind := KRestart; e_file := f |}) (restarts e).
 
 (* entryReaderImpl.Read(now): t = now in unix seconds *)
 Definition read_entries (s : state) (t : Z) : list entry :=
   flat_map (fun fe => if mem (fst fe) (susp s) then [] else entries_of t (fst fe) (snd fe)) (tbl s).
 
-(* sort.SliceStable by Next *)
+(* sort.SliceStable by Next; the zero time is before every other time *)
+Definition next_leb (a b : option Z) : bool :=
+  match a, b with
+  | None, _ => true
+  | Some _, None => false
+  | Some x, Some y => x <=? y
+  end.
 Fixpoint insert_entry (e : entry) (l : list entry) : list entry :=
   match l with
   | [] => [e]
-  | x :: r => if e_next e <=? e_next x then e :: l else x :: insert_entry e r
+  | x :: r => if next_leb (e_next e) (e_next x) then e :: l else x :: insert_entry e r
   end.
 Fixpoint sort_entries (l : list entry) : list entry :=
   match l with [] => [] | e :: r => insert_entry e (sort_entries r) end.
 
-(* for _, e := range entries { if e.Next.After(now) { break }; go e.Invoke() } *)
+(* for _, e := range entries { if e.Next.IsZero() { continue }; if e.Next.After(now) { break }; go e.Invoke() } *)
 Fixpoint take_due (m : Z) (l : list entry) : list entry :=
   match l with
   | [] => []
-  | e :: r => if m <? e_next e then [] else e :: take_due m r
+  | e :: r => match e_next e with
+              | None => take_due m r
+              | Some n => if m <? n then [] else e :: take_due m r
+              end
   end.
 
 (* jobImpl.Start / Stop / Restart *)
 Definition invoke (s : state) (e : entry) : list call :=
   let st := status_of s (e_file e) in
+  let n := match e_next e with Some n => n | None => zero_minute end in
   match e_kind e with
   | KStart =>
       if st_err st then []
       else if st_run st then []                               (* errJobRunning *)
       else match st_last st with
-           | Some l => if e_next e <=? l then [] else [CStart (e_file e)]   (* errJobFinished *)
+           | Some l => if n <=? l then [] else [CStart (e_file e)]   (* errJobFinished *)
            | None => [CStart (e_file e)]
            end
   | KStop => if st_err st then [] else if st_run st then [CStop (e_file e)] else []
